@@ -236,11 +236,12 @@ fn limb_family(cx: &mut Cx, extra: usize) {
         }
     }
     // random generation
-    for it in 0..(8 + 4 * extra) {
-        let zeros = it % 5;
+    for it in 0..(12 + 4 * extra) {
+        // long runs of zero draws too: a rejection loop with a bounded number of retries gives up after them
+        let zeros = [0usize, 1, 2, 3, 4, 63, 64, 65, 66, 129, 257, 5][it % 12];
         let data = stream(&mut cx.rng, 1, zeros, zeros + 2, 0);
         let mut rf = Script { data: data.clone(), pos: 0 };
-        let xs: Vec<Vec<u64>> = (0..K).map(|_| vec![Limb::random(&mut rf).0]).collect();
+        let xs: Vec<Vec<u64>> = (0..K.max(zeros + 2)).map(|_| vec![Limb::random(&mut rf).0]).collect();
         cx.call(ev("random", "NonZero<Limb>::random", "nz", 64).nl("xs", &xs).s("z", "err"), || { let mut g = Script { data: data.clone(), pos: 0 }; out(&[NonZero::<Limb>::random(&mut g).get().0]) });
         let cut = if it % 3 == 0 { 8 * cx.rng.range(1, 2) } else { 0 };
         let data = stream(&mut cx.rng, 1, zeros, zeros + 1, cut);
@@ -467,11 +468,11 @@ fn uint_family<const N: usize>(cx: &mut Cx, extra: usize) {
         }
     }
     // random generation
-    for it in 0..(10 + 4 * extra) {
-        let zeros = it % 5;
+    for it in 0..(12 + 4 * extra) {
+        let zeros = if N <= 4 { [0usize, 1, 2, 3, 4, 63, 64, 65, 66, 129, 5, 6][it % 12] } else { it % 5 };
         let data = stream(&mut cx.rng, N, zeros, zeros + 2, 0);
         let mut rf = Script { data: data.clone(), pos: 0 };
-        let xs: Vec<Vec<u64>> = (0..K).map(|_| w(&Uint::<N>::random(&mut rf))).collect();
+        let xs: Vec<Vec<u64>> = (0..K.max(zeros + 2)).map(|_| w(&Uint::<N>::random(&mut rf))).collect();
         cx.call(ev("random", "NonZero<Uint>::random", "nz", bits).nl("xs", &xs).s("z", "err"), || { let mut g = Script { data: data.clone(), pos: 0 }; out(&w(&NonZero::<Uint<N>>::random(&mut g).get())) });
         cx.call(ev("random", "Odd<Uint>::random", "odd", bits).nl("xs", &xs).s("z", "err"), || { let mut g = Script { data: data.clone(), pos: 0 }; out(&w(&Odd::<Uint<N>>::random(&mut g).get())) });
         let cut = if it % 3 == 0 { cx.rng.range(1, 8 * N) } else { 0 };
